@@ -135,6 +135,7 @@ type sgSig struct {
 	mutated    int    // index of the slice parameter written through, -1 if none
 	retTy      string
 	resultName string
+	results    []lfield // ring helpers: the named results that are used as variables
 }
 
 type sgCtx struct {
@@ -160,6 +161,12 @@ type sg struct {
 	multiParams   [2]string         // the names of the two parameters that together are isMulti
 	splitTail     bool              // the classification part of splitRing
 	sortedKeys    map[string]bool   // key slices on which sort.Ints has been called
+	rh            bool              // the constructs of the ring helpers (ringhelpers.go, hooks rh*) are enabled
+	rhConfigOK    bool              // snap.Config has been checked against the model's record
+	rhExtSigs     map[string]string // the signatures of package geomhelp
+	dio, dioAlias bool              // dedupeInnersOuters (dedupe.go): maps, ordered maps, two results; type IsOuter = bool seen
+	splitWalk     bool              // the first part of splitRing (splitwalk.go)
+	walkN         int               // range-loop bodies emitted as definitions (splitwalk.go)
 	cur           *sgSig
 	n             int
 	loopN         int
@@ -173,6 +180,16 @@ func (g *sg) fresh(p string) string {
 }
 
 func (g *sg) goType(x ast.Expr) (string, error) {
+	if g.rh {
+		if t, ok := g.rhType(x); ok {
+			return t, nil
+		}
+	}
+	if g.dio {
+		if t, ok := g.dioType(x); ok {
+			return t, nil
+		}
+	}
 	switch types.ExprString(x) {
 	case "int":
 		return stInt, nil
@@ -211,6 +228,8 @@ func sgElem(ty string) (string, bool) {
 		return stInt, true
 	case stRings:
 		return stPts, true
+	case stPolys:
+		return stRings, true
 	}
 	return "", false
 }
@@ -232,6 +251,11 @@ func (g *sg) conv(v sgVal, ty string) (sgVal, error) {
 
 // expr translates an expression; the reads that can fail are appended to binds, in evaluation order.
 func (g *sg) expr(env *sgEnv, x ast.Expr, binds *[]string) (sgVal, error) {
+	if g.dio {
+		if v, handled, err := g.dioExpr(env, x, binds); handled {
+			return v, err
+		}
+	}
 	switch x := x.(type) {
 	case *ast.ParenExpr:
 		return g.expr(env, x.X, binds)
@@ -253,7 +277,7 @@ func (g *sg) expr(env *sgEnv, x ast.Expr, binds *[]string) (sgVal, error) {
 			if t == stOpaque {
 				return sgVal{}, fmt.Errorf("the parameter %s may only be passed to a panic helper", x.Name)
 			}
-			if t == stView || t == stCMap || t == stCKeys {
+			if t == stView || t == stCMap || t == stCKeys || t == stWMap || t == stWPair || t == stMultiSet {
 				return sgVal{}, fmt.Errorf("%s may only be indexed / ranged over", x.Name)
 			}
 			return sgVal{code: "v_" + x.Name, ty: t}, nil
@@ -275,6 +299,10 @@ func (g *sg) expr(env *sgEnv, x ast.Expr, binds *[]string) (sgVal, error) {
 				return sgVal{code: "(-" + v.code + ")", ty: stInt, lit: true}, nil
 			}
 			return sgVal{code: "(- " + v.code + ")", ty: stInt}, nil
+		case x.Op == token.AND && g.rh && v.ty == stPt: // &s[i], only read through: the element
+			if _, ok := x.X.(*ast.IndexExpr); ok {
+				return sgVal{code: "(Some " + v.code + ")", ty: stPtPtr}, nil
+			}
 		}
 		return sgVal{}, fmt.Errorf("unsupported unary %s on %s", x.Op, v.ty)
 	case *ast.StarExpr:
@@ -302,6 +330,11 @@ func (g *sg) expr(env *sgEnv, x ast.Expr, binds *[]string) (sgVal, error) {
 		}
 		if x.Op == token.LAND || x.Op == token.LOR {
 			return g.shortCircuit(env, x, binds)
+		}
+		if g.rh {
+			if v, handled, err := g.rhBinary(env, x, binds); handled {
+				return v, err
+			}
 		}
 		a, err := g.expr(env, x.X, binds)
 		if err != nil {
@@ -485,12 +518,22 @@ func (g *sg) expr(env *sgEnv, x ast.Expr, binds *[]string) (sgVal, error) {
 			}
 			return sgVal{code: "[" + strings.Join(items, "; ") + "]", ty: stRings}, nil
 		}
+		if ty == stInts && len(x.Elts) != 0 && g.splitWalk {
+			return g.walkIntsLit(env, x, binds)
+		}
 		if ty != stInts || len(x.Elts) != 0 {
 			return sgVal{}, fmt.Errorf("unsupported composite literal")
 		}
 		return sgVal{code: "(@nil Z)", ty: stInts}, nil
 	case *ast.CallExpr:
 		return g.call(env, x, binds)
+	case *ast.SelectorExpr:
+		if g.splitWalk {
+			return g.walkSelector(env, x)
+		}
+	}
+	if g.rh {
+		return g.rhExpr(env, x, binds)
 	}
 	return sgVal{}, fmt.Errorf("unsupported expression %T", x)
 }
@@ -589,15 +632,30 @@ func sgStaticallyNonNeg(x ast.Expr) bool {
 }
 
 func (g *sg) call(env *sgEnv, x *ast.CallExpr, binds *[]string) (sgVal, error) {
+	if g.rh {
+		if v, handled, err := g.rhCall(env, x, binds); handled {
+			return v, err
+		}
+	}
+	if g.splitWalk {
+		if v, handled, err := g.walkCall(env, x, binds); handled {
+			return v, err
+		}
+	}
 	if g.dedup {
 		if v, handled, err := g.dedupCall(env, x, binds); handled {
 			return v, err
 		}
 	}
+	if g.dio {
+		if v, handled, err := g.dioCall(env, x, binds); handled {
+			return v, err
+		}
+	}
 	if g.cleanup {
 		if id, ok := x.Fun.(*ast.Ident); ok && id.Name == "splitRing" {
-			// splitRing(ring, isOuter, hitMultiple, ringIdx): the model's splitRing; (hitMultiple, ringIdx) only
-			// decide which vertices count as hit by several rings = the model's predicate isMulti
+			// splitRing(ring, isOuter, hitMultiple, ringIdx): the regenerated gen_splitRing of SplitWalkGen.v (splitwalk.go);
+			// (hitMultiple, ringIdx) only decide which vertices count as hit by several rings = the predicate isMulti
 			if _, shadow := env.vars[id.Name]; shadow || g.funcs["splitRing"] == nil || len(x.Args) != 4 {
 				return sgVal{}, fmt.Errorf("unsupported call of splitRing")
 			}
@@ -619,7 +677,7 @@ func (g *sg) call(env *sgEnv, x *ast.CallExpr, binds *[]string) (sgVal, error) {
 				return sgVal{}, fmt.Errorf("splitRing: unsupported arguments")
 			}
 			t := g.fresh("t")
-			*binds = append(*binds, fmt.Sprintf("do %s <- splitRing %s %s isMulti;", t, r.code, o.code))
+			*binds = append(*binds, fmt.Sprintf("do %s <- gen_splitRing %s %s isMulti;", t, r.code, o.code))
 			return sgVal{code: t, ty: stSets}, nil
 		}
 	}
@@ -747,6 +805,9 @@ func sgAssigned(stmts []ast.Stmt, acc map[string]bool) {
 	target := func(l ast.Expr) {
 		if ix, ok := l.(*ast.IndexExpr); ok {
 			l = ix.X
+			if ix2, ok := l.(*ast.IndexExpr); ok { // a[i][j]
+				l = ix2.X
+			}
 		}
 		if id, ok := l.(*ast.Ident); ok {
 			acc[id.Name] = true
@@ -780,7 +841,11 @@ func sgAssigned(stmts []ast.Stmt, acc map[string]bool) {
 						}
 						return true
 					}
-					if sel, ok := c.Fun.(*ast.SelectorExpr); ok && sel.Sel.Name == "Insert" { // X.Insert(k, v) changes X
+					if sel, ok := c.Fun.(*ast.SelectorExpr); ok && (sel.Sel.Name == "Insert" || sel.Sel.Name == "Set") { // X.Insert(k, v), X.Set(k, v) change X
+						target(sel.X)
+						return true
+					}
+					if sel, ok := c.Fun.(*ast.SelectorExpr); ok && (sel.Sel.Name == "Insert" || sgWalkMutators[sel.Sel.Name]) { // X.Insert(k, v) changes X
 						target(sel.X)
 						return true
 					}
@@ -872,8 +937,18 @@ func (g *sg) stmts(env *sgEnv, list []ast.Stmt, k lcont, ctx *sgCtx) (string, er
 		}
 		return lcont{gen: func() (string, error) { return g.stmts(e, rest, k, ctx) }}
 	}
+	if g.dio {
+		if out, handled, err := g.dioStmt(env, s, rest, k, ctx, after); handled {
+			return out, err
+		}
+	}
 	switch s := s.(type) {
 	case *ast.ReturnStmt:
+		if g.rh {
+			if out, handled, err := g.rhReturn(env, s, ctx); handled {
+				return out, err
+			}
+		}
 		switch {
 		case len(s.Results) == 0 && g.cur.result == "":
 			return ctx.ret("v_" + g.cur.params[g.cur.mutated].name), nil
@@ -936,6 +1011,9 @@ func (g *sg) stmts(env *sgEnv, list []ast.Stmt, k lcont, ctx *sgCtx) (string, er
 		}
 		return sgJoin(lines, body), nil
 	case *ast.RangeStmt:
+		if g.splitWalk && walkHasIndexVar(s) {
+			return g.walkIndexRange(env, s, after(env), ctx)
+		}
 		return g.rangeLoop(env, s, after(env), ctx)
 	case *ast.BranchStmt:
 		if s.Tok == token.CONTINUE && s.Label == nil {
@@ -970,7 +1048,13 @@ func (g *sg) stmts(env *sgEnv, list []ast.Stmt, k lcont, ctx *sgCtx) (string, er
 	case *ast.ExprStmt:
 		return g.callStmt(env, s, rest, k, ctx)
 	case *ast.IfStmt:
+		if s.Init != nil && g.splitWalk {
+			return g.walkIfInit(env, s, after(env), ctx)
+		}
 		if s.Init != nil {
+			if g.rh {
+				return g.rhIfInit(env, s, rest, k, ctx)
+			}
 			return "", fmt.Errorf("unsupported if with init")
 		}
 		eb, err := lgElse(s)
@@ -1005,6 +1089,16 @@ func (g *sg) stmts(env *sgEnv, list []ast.Stmt, k lcont, ctx *sgCtx) (string, er
 		c2.inSwitch = true
 		return g.branch(env, conds, bodies, def, after(env), &c2)
 	case *ast.ForStmt:
+		if g.rh {
+			if out, handled, err := g.rhOMapLoop(env, s, after(env), ctx); handled {
+				return out, err
+			}
+		}
+		if s.Init != nil && g.splitWalk {
+			if out, handled, err := g.walkPairLoop(env, s, after(env), ctx); handled {
+				return out, err
+			}
+		}
 		if s.Init != nil { // for init; cond; post {}  =  init; for ; cond; post {}  (the loop variable stays declared)
 			as, ok := s.Init.(*ast.AssignStmt)
 			if !ok || as.Tok != token.DEFINE {
@@ -1024,6 +1118,30 @@ func (g *sg) callStmt(env *sgEnv, s *ast.ExprStmt, rest []ast.Stmt, k lcont, ctx
 	c, ok := s.X.(*ast.CallExpr)
 	if !ok {
 		return "", fmt.Errorf("unsupported expression statement")
+	}
+	if g.rh {
+		if line, handled, err := g.rhStmt(env, c); handled {
+			if err != nil {
+				return "", err
+			}
+			body, err := g.stmts(env, rest, k, ctx)
+			if err != nil {
+				return "", err
+			}
+			return line + "\n  " + body, nil
+		}
+	}
+	if g.splitWalk {
+		if line, handled, err := g.walkCallStmt(env, c); handled {
+			if err != nil {
+				return "", err
+			}
+			body, err := g.stmts(env, rest, k, ctx)
+			if err != nil {
+				return "", err
+			}
+			return line + "\n  " + body, nil
+		}
 	}
 	if g.dedup {
 		if line, handled, err := g.dedupStmt(env, c); handled {
@@ -1077,6 +1195,11 @@ func (g *sg) callStmt(env *sgEnv, s *ast.ExprStmt, rest []ast.Stmt, k lcont, ctx
 }
 
 func (g *sg) assign(env *sgEnv, s *ast.AssignStmt, rest []ast.Stmt, k lcont, ctx *sgCtx) (string, error) {
+	if g.rh {
+		if out, handled, err := g.rhAssign(env, s, rest, k, ctx); handled {
+			return out, err
+		}
+	}
 	env2 := env.clone()
 	var lines []string
 	// x op= e
@@ -1103,12 +1226,24 @@ func (g *sg) assign(env *sgEnv, s *ast.AssignStmt, rest []ast.Stmt, k lcont, ctx
 	if s.Tok != token.DEFINE && s.Tok != token.ASSIGN {
 		return "", fmt.Errorf("unsupported assignment operator %s", s.Tok)
 	}
+	if g.splitWalk {
+		if lines, env3, handled, err := g.walkDefine(env, s); handled {
+			if err != nil {
+				return "", err
+			}
+			body, err := g.stmts(env3, rest, k, ctx)
+			if err != nil {
+				return "", err
+			}
+			return sgJoin(lines, body), nil
+		}
+	}
 	if len(s.Lhs) != len(s.Rhs) {
 		return "", fmt.Errorf("unsupported assignment of a multi-valued expression")
 	}
 	// v = append(v, x)
 	if c, ok := s.Rhs[0].(*ast.CallExpr); ok && len(s.Rhs) == 1 {
-		if f, ok := c.Fun.(*ast.Ident); ok && f.Name == "append" {
+		if f, ok := c.Fun.(*ast.Ident); ok && f.Name == "append" && !g.splitWalk { // splitWalk: append is an expression (walkCall)
 			if _, shadow := env.vars["append"]; !shadow {
 				t, ok1 := s.Lhs[0].(*ast.Ident)
 				var a0 *ast.Ident
@@ -1120,7 +1255,7 @@ func (g *sg) assign(env *sgEnv, s *ast.AssignStmt, rest []ast.Stmt, k lcont, ctx
 				}
 				sty := env.vars[t.Name]
 				el, isSlice := sgElem(sty)
-				if !isSlice || (sty != stInts && !g.dedup) || (sty == stRings && !g.splitTail) {
+				if !isSlice || (sty != stInts && !g.dedup) || (sty == stRings && !g.splitTail && !g.rh) {
 					return "", fmt.Errorf("append to %s", sty)
 				}
 				v, err := g.expr(env, c.Args[1], &lines)
@@ -1189,6 +1324,7 @@ func (g *sg) assign(env *sgEnv, s *ast.AssignStmt, rest []ast.Stmt, k lcont, ctx
 	type target struct {
 		name string
 		idx  string // "" for a plain variable
+		el   string // the element type of an indexed target
 	}
 	var ts []target
 	seen := map[string]bool{}
@@ -1206,7 +1342,7 @@ func (g *sg) assign(env *sgEnv, s *ast.AssignStmt, rest []ast.Stmt, k lcont, ctx
 				return "", fmt.Errorf("unsupported assignment target %s", types.ExprString(l))
 			}
 			aty, ok := env.vars[id.Name]
-			if !ok || aty != stInts {
+			if !ok || (aty != stInts && !(g.rh && (aty == stPts || aty == stPolys))) {
 				return "", fmt.Errorf("indexed assignment to %s", id.Name)
 			}
 			isParam := g.cur.mutated >= 0 && g.cur.params[g.cur.mutated].name == id.Name
@@ -1220,7 +1356,8 @@ func (g *sg) assign(env *sgEnv, s *ast.AssignStmt, rest []ast.Stmt, k lcont, ctx
 			if i.ty != stInt {
 				return "", fmt.Errorf("index of type %s", i.ty)
 			}
-			ts = append(ts, target{name: id.Name, idx: i.code})
+			el, _ := sgElem(aty)
+			ts = append(ts, target{name: id.Name, idx: i.code, el: el})
 		default:
 			return "", fmt.Errorf("unsupported assignment target %s", types.ExprString(l))
 		}
@@ -1242,8 +1379,8 @@ func (g *sg) assign(env *sgEnv, s *ast.AssignStmt, rest []ast.Stmt, k lcont, ctx
 		t := ts[i]
 		switch {
 		case t.idx != "":
-			if v.ty != stInt {
-				return "", fmt.Errorf("assignment of %s to an element of []int", v.ty)
+			if v.ty != t.el {
+				return "", fmt.Errorf("assignment of %s to an element of a slice of %s", v.ty, t.el)
 			}
 		case t.name == "_":
 		case s.Tok == token.DEFINE:
@@ -1442,8 +1579,11 @@ func (g *sg) loop(env *sgEnv, s *ast.ForStmt, after lcont, ctx *sgCtx) (string, 
 }
 
 func (g *sg) signature(fd *ast.FuncDecl) (*sgSig, error) {
+	if g.rh {
+		return g.rhSignature(fd)
+	}
 	sig := &sgSig{name: fd.Name.Name, mutated: -1}
-	if fd.Recv != nil || (fd.Type.TypeParams != nil && !(g.dedup && fd.Name.Name == "RemoveSequences")) {
+	if fd.Recv != nil || (fd.Type.TypeParams != nil && !(g.dedup && fd.Name.Name == "RemoveSequences") && !g.dioGeneric(fd.Name.Name)) {
 		return nil, fmt.Errorf("methods and generic functions are not supported")
 	}
 	for _, f := range fd.Type.Params.List {
@@ -1530,6 +1670,7 @@ func (g *sg) signature(fd *ast.FuncDecl) (*sgSig, error) {
 			return nil, fmt.Errorf("named results that are used are not supported")
 		}
 		sig.result, sig.retTy = stSets, stSets
+	case g.dioResults(fd, sig):
 	default:
 		return nil, fmt.Errorf("unsupported result list")
 	}
@@ -1607,6 +1748,13 @@ func (g *sg) function(name string) error {
 		}
 		env.declare(sig.resultName, sig.result)
 		prefix = "let v_" + sig.resultName + " := (@nil pt) in\n  "
+	}
+	if g.rh {
+		p, err := g.rhDeclareResults(env, sig)
+		if err != nil {
+			return err
+		}
+		prefix += p
 	}
 	body, err := g.stmts(env, fd.Body.List, fall, ctx)
 	if err != nil {
